@@ -12,8 +12,9 @@ Fixpoint run_idx {A} (f : A -> list N) (i : N) (cs : list A) : list (N * N) :=
 (* M1: access site not in coq/Sched/AccessTable.v (regenerate it and re-check the theorem) *)
 Definition mismatches (cs : list acc) : list (N * N) :=
   run_idx (fun a => if existsb (acc_eqb a) access_table then [] else [1%N]) 0%N cs.
-(* V1: access site violates the lockset discipline;
+(* V1: access site to a field the policy classifies violates the lockset discipline (an access to an unclassified,
+   i.e. new, field is a correspondence failure M1, not a violation by itself);
    V2 (reported on case 0): the table as a whole violates the lock-granularity requirement *)
 Definition violations (cs : list acc) : list (N * N) :=
-  run_idx (fun a => if loc_ok a then [] else [1%N]) 0%N cs ++
+  run_idx (fun a => if loc_ok a || negb (classified a) then [] else [1%N]) 0%N cs ++
   (if granularity_ok cs then [] else [(0%N, 2%N)]).
